@@ -553,7 +553,7 @@ func (w *c28wWorld) step(e c28wEv, check bool) *c28wOut {
 		hi := t.hi
 		hi.ConnectionState = &ConnectionState{initiator: true}
 		hi.remoteIndexId = set.Remote
-		hi.lastHandshakeTime = uint64(1000 + w.seq)
+		c28SetInt(&hi.lastHandshakeTime, 1000+w.seq) // (generic: the field's integer type is the implementation's business)
 		hi.vpnAddrs = slices.Clone(set.Addrs)
 		w.hsm.Complete(hi, w.f)
 		t.WasMain = true
@@ -590,9 +590,9 @@ func (w *c28wWorld) step(e c28wEv, check bool) *c28wOut {
 			remoteIndexId:     set.Remote,
 			vpnAddrs:          slices.Clone(set.Addrs),
 			HandshakePacket:   map[uint8][]byte{handshakePacketStage0: {'c', '2', '8', byte(w.seq >> 8), byte(w.seq)}},
-			lastHandshakeTime: uint64(1000 + w.seq),
 			relayState:        RelayState{relayForByAddr: map[netip.Addr]*Relay{}, relayForByIdx: map[uint32]*Relay{}},
 		}
+		c28SetInt(&hi.lastHandshakeTime, 1000+w.seq)
 		switch e.K {
 		case 1:
 			hi.lastHandshakeTime = 0
@@ -1073,3 +1073,6 @@ func c28wKeys(m map[string]int64) []string {
 	sort.Strings(ks)
 	return ks
 }
+
+// c28SetInt stores a small non-negative value into an integer field whatever its exact integer type is.
+func c28SetInt[T ~int | ~int32 | ~int64 | ~uint | ~uint32 | ~uint64, V ~int | ~int64 | ~uint32](p *T, v V) { *p = T(v) }
